@@ -89,8 +89,34 @@ pub fn worker_main(args: &[String]) -> i32 {
     match args.first().map(|s| s.as_str()) {
         Some("open-hold") => c10::worker(&args[1..]),
         Some("q") => exprlib::probe(&args[1..]),
+        Some("qw") => qw(&args[1..]),
         Some("c25") => c25::worker_main(&args[1..]),
         Some(kind) if kind.starts_with("c16") => c16::worker_main(kind, &args[1..]),
         _ => 2,
     }
+}
+
+/// `check --worker qw <stmt>...`: runs each statement on one scratch database (write path first,
+/// read path when it is not a write) and prints the outcome; a manual triage aid.
+fn qw(stmts: &[String]) -> i32 {
+    let dir = std::env::temp_dir().join(format!("nvcheck-qw-{}", std::process::id()));
+    let _ = std::fs::remove_dir_all(&dir);
+    std::fs::create_dir_all(&dir).unwrap();
+    let db = nervusdb::Db::open(dir.join("db")).unwrap();
+    let p = nervusdb::query::Params::new();
+    for s in stmts {
+        let up = s.to_uppercase();
+        let is_write = ["CREATE", "SET ", "DELETE", "MERGE", "REMOVE"].iter().any(|k| up.contains(k));
+        let w = if is_write { crate::cy::write(&db, s, &p) } else { Err(crate::cy::QErr::Exec(String::new())) };
+        match w {
+            Ok(n) => println!("W {s}\n  -> {n} changes"),
+            Err(_) => match crate::cy::read(&db, s, &p) {
+                Ok((cols, rows)) => println!("R {s}\n  {cols:?}\n  {rows:?}"),
+                Err(e) => println!("E {s}\n  {}", e.text()),
+            },
+        }
+    }
+    drop(db);
+    let _ = std::fs::remove_dir_all(&dir);
+    0
 }
